@@ -301,28 +301,28 @@ func genListOp[T comparable](r *core.R, d *Dom[T], n int, maxN int) listOp[T] {
 func structIndex(r *core.R, n int) int {
 	i := hostileIndex(r, n)
 	if r.Intn(3) == 0 {
-		i = lastIdx + r.Range(-1, 1)
+		i = r.Last + r.Range(-1, 1)
 	}
 	if i >= 0 && i <= n {
-		lastIdx = i
+		r.Last = i
 	}
 	return i
 }
 
-// lastIdx remembers the index used by the previous index-taking call of the
-// generator, so that consecutive calls often hit the same or adjacent index.
-var lastIdx int
+// (r.Last remembers the index used by the previous index-taking call of the
+// generator, so that consecutive calls often hit the same or adjacent index;
+// it lives in the case's own PRNG stream object.)
 
 func nearIndex(r *core.R, n int) int {
 	switch r.Intn(4) {
 	case 0:
 		return hostileIndex(r, n)
 	case 1:
-		return lastIdx
+		return r.Last
 	default:
-		i := lastIdx + r.Range(-2, 2)
+		i := r.Last + r.Range(-2, 2)
 		if i >= 0 && i <= n && r.Bool() {
-			lastIdx = i
+			r.Last = i
 		}
 		return i
 	}
@@ -441,7 +441,6 @@ func runListSawtooth[T comparable](c *core.Ctx, d *Dom[T]) {
 func runC03(c *core.Ctx) {
 	const sweepCases = 13 * 4 * 4
 	i := c.Index
-	lastIdx = 0 // generator state is per case: a case is a pure function of (seed, tier, index)
 	c.SetGaps(i >= sweepCases && (i/4)%2 == 1)
 	switch {
 	case i >= sweepCases && i < sweepCases+3:
